@@ -30,6 +30,7 @@ func c04(c *Ctx) {
 	c04Recompute(c)
 	legacySuffixRule(c, "C04", []string{"mac/hmac", "mac/aescmac", "mac"}, map[string]bool{"ComputeMAC": true, "VerifyMAC": true})
 	c04Trunc(c)
+	c04CBCChain(c)
 }
 
 func c04Recompute(c *Ctx) {
